@@ -166,6 +166,8 @@ void
 Ipc::TypedMsgHdr::getRaw(void *rawBuf, size_t rawSize) const
 {
     if (rawSize > 0) {
+        // data.size may come from the wire; do not let it reach beyond data.raw
+        Must(data.size <= sizeof(data.raw));
         Must(rawSize <= data.size - offset);
         memcpy(rawBuf, data.raw + offset, rawSize);
         offset += rawSize;
